@@ -266,7 +266,9 @@ def step (st : DState) (op impl : String) : DState × StepOut :=
         let (v', errs) := absorb st.v mop o
         let orc := errs
           ++ (if v'.timers.all (diesOk v') then [] else [s!"C12.dies {firstBad v' diesOk}"])
-          ++ (if ok v' then [] else [s!"C12.ok {firstBad v' timerOk}"])
+          ++ (if ok1 v' then [] else [s!"C12.ok {firstBad v' timerOk}"])
+          -- delivery level: a message (timer id, k) handled twice
+          ++ (if deliveredOk v' then [] else ["C12.delivered handled-twice"])
           ++ (if okPrompt v' then [] else [s!"C12.okPrompt {firstBad v' timerPromptOk}"])
         let resChanged := (m'.timers.map (·.res)).take st.m.timers.length != st.m.timers.map (·.res)
         let nt := !(newAttempts st.m.timers m'.timers).isEmpty || resChanged
